@@ -25,7 +25,8 @@ const (
 	R11ForWhile                            // for <-> while
 	R12ParamPattern                        // (a) <-> ([a]) with wrapped argument
 	R13EvalClosure                         // closure <-> eval("(closure text)"): no static capture
-	NumRewrites     = 13
+	R14Continue                            // end of a loop body <-> explicit continue
+	NumRewrites     = 14
 )
 
 func (k RewriteKind) String() string { return fmt.Sprintf("R%d", int(k)) }
@@ -74,6 +75,8 @@ func (rw *Rewriter) Apply(p *Node, kind RewriteKind) (*Node, string, bool) {
 		desc = rw.r12(q)
 	case R13EvalClosure:
 		desc = rw.r13(q)
+	case R14Continue:
+		desc = rw.r14(q)
 	}
 	if desc == "" {
 		return nil, "", false
@@ -390,6 +393,9 @@ func (rw *Rewriter) r4(p *Node) string {
 		// normally every later (normal or abrupt) completion of the region carries a non-empty value.
 		if !valueFree(s.c) && (*s.list)[i].K != KExpr {
 			continue
+		}
+		if AvoidFinallyJumps && !valueFree(s.c) && escapes((*s.list)[i:j]) {
+			continue // listed completion-value findings (nested jumps): not judged where the value is observable
 		}
 		// Names are looked up in the object first: {} inherits from Object.prototype whose property names
 		// (constructor, toString, valueOf, hasOwnProperty, …) are never used as identifiers by the generator.
